@@ -369,9 +369,23 @@ func (b *byzActor) catalogueTurn(h *Node, rs *cstypes.RoundState) {
 	cl.c.Probe("catalogue-block-proposed")
 	cl.tracef("byz proposes catalogue block %s at H=%d R=%d", e.name, rs.Height, rs.Round)
 	cl.catAt = cl.now
+	// half of the time the proposal claims a proof-of-lock round: an earlier
+	// round in which this node saw a +2/3 prevote majority (for nil is enough)
+	polRound, polID := -1, types.BlockID{}
+	if rs.Round > 0 && rs.Votes != nil && cl.sched.Bool(1, 2) {
+		for r := rs.Round - 1; r >= 0; r-- {
+			if pv := rs.Votes.Prevotes(r); pv != nil {
+				if id, ok := pv.TwoThirdsMajority(); ok {
+					polRound, polID = r, id
+					cl.c.Probe("catalogue-proposal-with-pol-round")
+					break
+				}
+			}
+		}
+	}
 	for _, n := range cl.honest() {
 		if n.alive && !n.failed {
-			b.sendBlock(n, rs.Height, rs.Round, bad, "cat")
+			b.sendBlockPOL(n, rs.Height, rs.Round, bad, "cat", polRound, polID)
 		}
 	}
 	// and supports it with its own votes a little later
